@@ -429,6 +429,14 @@ def r084(an, rep, rule="R08.4", nan_sign_matters=False):
                 badpairs.append(f"{keys[i][0]} and {keys[j][0]} are {'identified' if same else 'kept apart'}, CPython's constant table (with all NaNs identified) {'keeps them apart' if same else 'identifies them'}")
     rep.add(rule, f"{kf.qual}::witness constants are partitioned like CPython's constant table", not badpairs, loc(kf.module, kf.node),
             "; ".join(badpairs[:3]) if badpairs else f"{len(W)} witness constants ({len(W) * (len(W) - 1) // 2} pairs): key equality == CPython identity with NaNs identified")
+    # 'a' and b'a' hash alike, so a dict / set that holds both keys compares them: under `python -b` that warns, under `python -bb` it raises BytesWarning
+    # (CPython's _PyCode_ConstantKey wraps bytes in (type, value) for this reason)
+    kd = {nm: k for nm, k, _ in keys}
+    bare = isinstance(kd.get("'a'"), str) and isinstance(kd.get("b'a'"), bytes)
+    rep.add(rule, f"{kf.qual}::str and bytes keys are never compared with each other", not bare, loc(kf.module, kf.node),
+            "the key of a bytes (or str) constant is tagged with its type" if not bare else
+            "a str constant and a bytes constant are their own keys: 'a' and b'a' have the same hash, so the tables that hold both compare them - `python -bb` turns that comparison "
+            "into an exception, and from_code / to_code / == fail for a valid program like `x = 'a'; y = b'a'`")
     if nan_sign_matters:
         # where behaviour is compared (C05), the sign bit of a NaN is observable (math.copysign, struct.pack): CPython keeps nan and -nan as two constants
         try:
